@@ -51,7 +51,7 @@ def known_listed(kid):
 def cases(draw, tier="quick"):
     spec = draw(S.enum_specs(PROFILE))
     include_match = not known_listed(KF_ITER_MATCH)
-    cfg = draw(S.configs(spec, p_on=0.5, iter_match=include_match))
+    cfg = draw(S.configs(spec, p_on=[0.15, 0.35, 0.5, 0.5, 0.8], iter_match=include_match))
     m = M.RefEnum(spec)
     srt = None
     if m.values == sorted(m.values) and S.chance(draw, 0.3):
